@@ -278,6 +278,7 @@ let register (reg : ostring -> (ostring list -> ostring list) -> (ostring list -
            let r = { r_wf = wf; r_fid = fid; r_run = n_of_int !nrun; r_state = RSInitiated; r_status = zi 1; r_obj = OVal (Z0, []);
                      r_created = zi !nrun; r_updated = zi !nrun; r_ver = zi 1; r_reason = N0; r_desc = zi 1 } in
            rs := fst (ref_step !rs (SStore r)); created := !created @ [r.r_run]; "ok")
+      | ["b"; _] -> "err:none"   (* the announcement cannot be encoded: the Store fails as a whole, Trigger returns its error, nothing is written *)
       | ["n"; _] -> "err:none"   (* trigger.go: a workflow that is not running refuses at once, before any lookup or write *)
       | ["w"; k; state] ->
         let k = ios k in
